@@ -75,9 +75,11 @@ class Reform(TaxBenefitSystem):
             and should return an object of the same type.
 
         """
-        baseline_parameters = self.baseline.parameters
-        baseline_parameters_copy = copy.deepcopy(baseline_parameters)
-        reform_parameters = modifier_function(baseline_parameters_copy)
+        # Work on a copy of the parameters of the reform itself: they are the
+        # ones of the baseline until the reform modifies them, and successive
+        # modifications add up instead of the last one discarding the others.
+        parameters_copy = copy.deepcopy(self.parameters)
+        reform_parameters = modifier_function(parameters_copy)
         if not isinstance(reform_parameters, ParameterNode):
             return ValueError(
                 f"modifier_function {modifier_function.__name__} in module {modifier_function.__module__} must return a ParameterNode",
